@@ -5,6 +5,8 @@ CONSTANTS
   Values = {"A", "B"}
   MaxRound = 2
   MaxCrash = 1
+  MidCrash = TRUE
+  SendBeforeSync = FALSE
   FixWal = TRUE
   Order <- OrderDef
 INVARIANT Emit
